@@ -8,8 +8,12 @@ from vlib import cz, clist, cbool
 # adds VerifWrapFlight to core/syncx (decorate ResourceManager.singleFlight with a gate)
 OVERLAY = {"core/syncx/verif_hooks.go": "/verif/harness/overlay/syncx/verif_hooks.go"}
 
-KIND = {0: "GSF", 1: "GLC", 2: "GRM", 3: "GSF"}
-EK = {"inv": 0, "fs": 1, "fe": 2, "ret": 3}
+KIND = {0: "GSF", 1: "GLC", 2: "GRM", 3: "GSF", 4: "GSF", 5: "GSF", 6: "GSF", 7: "GSF"}
+EK = {"inv": 0, "fs": 1, "fe": 2, "ret": 3, "del": 5}
+
+
+def is_cache(case):
+    return any(o[0] >= 4 for sc in case["scripts"] for o in sc)
 
 
 def interleavings(counts):
@@ -82,6 +86,12 @@ class C07(Property):
         # resource manager: failed creation, retry, then shared
         cs.append({"scripts": self._mk_scripts([[(2, 1, 5)], [(2, 1, 0)], [(2, 1, 0)], [(2, 1, 0)]]), "sched": [0, 1, 0, 2, 2, 3]})
         cs.append({"scripts": self._mk_scripts([[(2, 1, 0), (2, 1, 0)], [(2, 1, 0)], [(2, 2, 3)]]), "sched": [0, 1, 2, 0, 2, 0]})
+        # users of the barrier: join while loading, reload after completion / after invalidation, two keys
+        for take in (4, 5):
+            cs.append({"scripts": self._mk_scripts([[(take, 1, 0), (take, 1, 0)], [(take, 1, 0)], [(take, 2, 0)]]),
+                       "sched": [0, 1, 2, 0, 2, 0, 1]})
+            cs.append({"scripts": self._mk_scripts([[(take, 1, 0), (take + 2, 1, 0), (take, 1, 0)], [(take, 1, 0), (take, 1, 0)]]),
+                       "sched": [0, 0, 0, 1, 0, 1, 0, 1]})
         # GetResource: X is invoked and stops in front of singleflight; Y completes a whole call; X goes on
         cs.append({"scripts": self._mk_scripts([[(2, 1, 0)], [(2, 1, 0)]]), "sched": [0, 1, 1, 1, 0, 0]})
         cs.append({"scripts": self._mk_scripts([[(2, 1, 0)], [(2, 1, 4)], [(2, 1, 0)]]), "sched": [0, 2, 1, 1, 1, 2, 2, 2, 0, 0]})
@@ -115,7 +125,29 @@ class C07(Property):
                         cases.append({"scripts": self._mk_scripts([[(kind, k, 0)] for k in keys]), "sched": sch})
         return cases
 
+    def _cache_case(self, rng):
+        """the anchored users of the barrier: collection.Cache.Take (4) / cache node Take (5), with
+        invalidations (6 / 7) so that reloads happen"""
+        take = rng.choice([4, 4, 5])
+        dele = take + 2
+        nthreads = rng.choice([2, 3, 3, 4])
+        nkeys = rng.choice([1, 2, 2])
+        sc = []
+        for _ in range(nthreads):
+            ops = []
+            for _ in range(rng.choice([1, 2, 2, 3])):
+                if rng.random() < 0.2:
+                    ops.append((dele, rng.randint(1, nkeys), 0))
+                else:
+                    ops.append((take, rng.randint(1, nkeys), rng.choice([0, 0, 0, 0, 2]) if take == 4 else 0))
+            sc.append(ops)
+        total = sum(len(x) for x in sc)
+        sched = [rng.randrange(nthreads) for _ in range(rng.randint(total, 3 * total))]
+        return {"scripts": self._mk_scripts(sc), "sched": sched}
+
     def _random(self, rng):
+        if rng.random() < 0.12:
+            return self._cache_case(rng)
         nthreads = rng.choice([1, 2, 2, 3, 3, 4, 4, 5])
         nkeys = rng.choice([1, 1, 2, 2, 3])
         mode = rng.choice([0, 0, 0, 3, 1, 1, 2, 2, "mix"])
@@ -156,7 +188,7 @@ class C07(Property):
         if r.get("err"):
             return {"err": r["err"], "steps": [], "log": [], "forced": not case.get("free")}
         if case.get("free"):
-            log = [[e["t"], e["a"], EK[e["k"]], e["op"]] + (e.get("v") or [0, 0, 0]) for e in r.get("events") or []]
+            log = [[e["t"], e["a"], EK[e["k"]], e["op"]] + ((e.get("v") or []) + [0, 0, 0])[:3] for e in r.get("events") or []]
             return {"steps": [], "log": log, "forced": False, "monitor": r.get("monitor") or []}
         steps, log = [], []
         lastt = 0
@@ -165,8 +197,8 @@ class C07(Property):
             for e in s["ev"]:
                 if e["a"] not in order:
                     order.append(e["a"])
-                v = e.get("v") or [0, 0, 0]
-                log.append([e["t"], e["a"], EK[e["k"]], e["op"]] + v)
+                v = (e.get("v") or [0, 0, 0]) + [0, 0]
+                log.append([e["t"], e["a"], EK[e["k"]], e["op"]] + v[:3])
                 lastt = e["t"]
             order += [t for t in range(nt) if t not in order]
             stat = {x["a"]: x for x in s["st"]}
@@ -179,10 +211,10 @@ class C07(Property):
                     sts.append([{"call": 0, "pre": 4}.get(x.get("l"), 3), x["op"]])
                 else:
                     sts.append([1, x["op"]])
-                    if not s["skip"]:
+                    if not s["skip"] and not is_cache(case):
                         log.append([lastt, t, 4, x["op"], 0, 0, 0])
             steps.append({"a": s["a"], "skip": s["skip"], "order": order, "st": sts})
-        return {"steps": steps, "log": log, "forced": True}
+        return {"steps": steps, "log": log, "forced": not is_cache(case)}
 
     # ---- Coq rendering --------------------------------------------------------------------
     def coq_case(self, case, obs):
@@ -197,19 +229,24 @@ class C07(Property):
         ok = "true" if obs.get("forced") and not obs.get("err") else "false"
         if obs.get("err"):
             # the implementation hung / did not quiesce: not a history of the model; make both fail
-            return "mkCase %s true [mkOStep 0%%nat false [] []] [mkEv 0 0%%nat 2 0%%nat 0 0 0]" % scripts
-        return "mkCase %s %s %s %s" % (scripts, ok, steps, log)
+            return "mkCase %s false true [mkOStep 0%%nat false [] []] [mkEv 0 0%%nat 2 0%%nat 0 0 0]" % scripts
+        return "mkCase %s %s %s %s %s" % (scripts, cbool(is_cache(case)), ok, steps, log)
 
     def coq_preamble(self):
         return "Open Scope nat_scope.\nOpen Scope Z_scope.\n"
 
     def nontrivial(self, case, obs):
-        return any(e[2] == 4 for e in obs.get("log", []))
+        if any(e[2] == 4 for e in obs.get("log", [])):
+            return True
+        # cache call sites: some caller got a value it did not load itself
+        return is_cache(case) and any(e[2] == 3 and e[6] != -2 and e[4] >= 0 and
+                                      e[4] != case["scripts"][e[1]][e[3]][2] for e in obs.get("log", []))
 
     def features(self, case, obs):
         fs = ["threads=%d" % len(case["scripts"])]
         kinds = set(o[0] for sc in case["scripts"] for o in sc)
-        fs += ["kind=%s" % {0: "sf.DoEx", 1: "lc.Do", 2: "rm.Get", 3: "sf.Do"}[k] for k in sorted(kinds)]
+        fs += ["kind=%s" % {0: "sf.DoEx", 1: "lc.Do", 2: "rm.Get", 3: "sf.Do", 4: "collection.Cache.Take",
+                            5: "cachenode.Take", 6: "collection.Cache.Del", 7: "cachenode.Del"}[k] for k in sorted(kinds)]
         fs.append("keys=%d" % len(set(o[1] for sc in case["scripts"] for o in sc)))
         fs.append("steps<=%d" % (10 * (1 + len(obs.get("steps", [])) // 10)))
         if any(e[2] == 4 for e in obs.get("log", [])):
